@@ -28,6 +28,33 @@ if TYPE_CHECKING:  # pragma: no cover
 from functools import cached_property
 
 
+class _TermMapping(dict):
+    """
+    A dictionary keyed by `Term` instances that can also be indexed by the string
+    representation of a term, whatever the order in which its factors are
+    written (a plain dictionary only finds strings whose factors happen to be
+    sorted, since that is what `Term` hashes).
+    """
+
+    def __missing__(self, key: Any) -> Any:
+        if isinstance(key, str):
+            for term in self:
+                if term == key:
+                    return self[term]
+        raise KeyError(key)
+
+    def __contains__(self, key: Any) -> bool:
+        if super().__contains__(key):
+            return True
+        return isinstance(key, str) and any(term == key for term in self)
+
+    def get(self, key: Any, default: Any = None) -> Any:
+        try:
+            return self[key]
+        except KeyError:
+            return default
+
+
 @dataclass(frozen=True)
 class ModelSpec:
     """
@@ -202,7 +229,7 @@ class ModelSpec:
         up elements of this mapping using the string representation of the
         `Term`.
         """
-        slices = {}
+        slices = _TermMapping()
         start = 0
         for row in self.__structure:
             end = start + len(row[2])
@@ -252,10 +279,12 @@ class ModelSpec:
         up elements of this mapping using the string representation of the
         `Term`.
         """
-        return {
-            k: slice(v[0], v[-1] + 1) if v else slice(0, 0)
-            for k, v in self.term_indices.items()
-        }
+        return _TermMapping(
+            {
+                k: slice(v[0], v[-1] + 1) if v else slice(0, 0)
+                for k, v in self.term_indices.items()
+            }
+        )
 
     @cached_property
     def term_factors(self) -> dict[Term, set[Factor]]:
